@@ -67,7 +67,11 @@ class Probe:
         try:
             self.errf.flush()
             self.errf.seek(0)
-            return self.errf.read()[-6000:].decode("latin-1")
+            data = self.errf.read()
+            if len(data) > 12000:
+                # head (error kind and the top frames decide the signature) and tail (summary line)
+                data = data[:7000] + b"\n[...]\n" + data[-4500:]
+            return data.decode("latin-1")
         except Exception:
             return ""
 
